@@ -130,6 +130,7 @@ def bodyOf (cfg : NodeCfg) (b : BodySpec) (n : Node) (kw : Kwargs) (inv att : Na
     if b.isRec && inv < b.recurK then .ret (.recur (.str s!"it{inv}"))
     else if b.kind == "prov" then .ret (.str (prov cfg.name kw))
     else if b.kind == "labels" then .ret ((b.seq[min inv (b.seq.length - 1)]?).getD .none)
+    else if b.kind == "labelhash" then .ret ((b.seq[(fnv1a64 (kwStr kw)).toNat % (max b.seq.length 1)]?).getD .none)
     else .ret b.const
 
 def parseProgram (j : Json) : Except String Program := do
